@@ -30,7 +30,9 @@ type tarShape struct {
 }
 
 func tarName(sh tarShape, rng *rand.Rand) string {
-	start := map[string]string{"plain": "dir/", "MZ": "MZ", "PK34": "PK\x03\x04", "pdf": "%PDF-", "gif": "GIF89a", "dotslash": "./", "nonascii": "\xc3\xa9t\xc3\xa9/"}[sh.Start]
+	start := map[string]string{"plain": "dir/", "MZ": "MZ", "PK34": "PK\x03\x04", "pdf": "%PDF-", "gif": "GIF89a", "dotslash": "./", "nonascii": "\xc3\xa9t\xc3\xa9/",
+		"bz2": "BZh91AY-notes/", "xar": "xar!backup/", "fits": "SIMPLE  =                    T/", "bmp": "BM/", "id3": "ID3/", "flac": "fLaC/",
+		"riff": "RIFFxxxxWAVE/", "ftyp": "xxxxftypisom/"}[sh.Start]
 	n := sh.NLen
 	if len(start) > n {
 		start = start[:n]
@@ -190,7 +192,11 @@ func tartraceMain(args []string) int {
 		if ex {
 			exempt++
 		}
-		emit(i, map[string]any{"ev": "tar", "id": i, "block": bytes2ints(blk), "accepted": acc, "result": ch[0], "exempt": ex, "shape": sh})
+		rootChild := ch[0]
+		if len(ch) >= 2 {
+			rootChild = ch[len(ch)-2]
+		}
+		emit(i, map[string]any{"ev": "tar", "id": i, "block": bytes2ints(blk), "accepted": acc, "result": ch[0], "rootchild": rootChild, "exempt": ex, "shape": sh})
 		if len(blocks) < *corrupt && (i%(len(shapes) / *corrupt + 1)) == 0 {
 			blocks = append(blocks, append([]byte{}, raw...))
 		}
